@@ -161,7 +161,7 @@ func verifyFunction(prog *Program, fn *ssa.Function, ctr *Contract, opts VerifyO
 	// a site clause that applies to no call proves nothing: most likely its callee is misspelt
 	if ctr != nil {
 		for _, c := range ctr.Clauses {
-			if c.Kind == "site" && !x.siteMatched[c] {
+			if c.Kind == "site" && !x.siteMatched[c] && !c.Optional {
 				x.unsupported("site clause %q (%s) matches no call in %s", c.Label, c.Callee, prog.relName(fn))
 			}
 			if c.Kind == "invariant" && !x.siteMatched[c] {
